@@ -8,6 +8,7 @@ stored case against a fresh build of /repo's working tree.
 import atexit
 import concurrent.futures as cf
 import hashlib
+import stat as _stat
 import json
 import os
 import random
@@ -443,6 +444,8 @@ def snapshot(root, skip=()):
             st = os.lstat(p)
             if os.path.islink(p):
                 snap[r] = ("link", 0, os.readlink(p))
+            elif not _stat.S_ISREG(st.st_mode):
+                snap[r] = ("special", st.st_mode, "")   # FIFOs, sockets, devices: never opened by the harness
             else:
                 try:
                     with open(p, "rb") as f:
@@ -477,7 +480,7 @@ ERRLINE_RE = re.compile(r"(?m)( ERR | FTL |\bERR\b|\bFTL\b|^Error:|error)")
 
 
 class Result:
-    __slots__ = ("exit", "out", "err", "timed_out", "cpu_killed", "events", "wall", "signal", "tracer_failed")
+    __slots__ = ("exit", "out", "err", "timed_out", "cpu_killed", "events", "wall", "signal", "tracer_failed", "blocked")
 
     def __init__(self):
         self.exit = None
@@ -485,6 +488,7 @@ class Result:
         self.err = ""
         self.timed_out = False
         self.cpu_killed = False
+        self.blocked = False
         self.events = []
         self.wall = 0.0
         self.signal = None
@@ -521,9 +525,33 @@ def strace_available():
     return _strace_ok
 
 
-def run(cmd, cwd, env=None, timeout=600, strace_root=None, cpu_limit=None, stdin=None, ctx=None):
+def _group_state(pgid):
+    """(number of processes, all threads sleeping?, total CPU ticks) of a process group, from /proc"""
+    n, ticks, all_sleeping = 0, 0, True
+    for ent in os.listdir("/proc"):
+        if not ent.isdigit():
+            continue
+        try:
+            st = open("/proc/%s/stat" % ent).read()
+            rest = st[st.rindex(")") + 2:].split()
+            if int(rest[2]) != pgid:      # field 5: pgrp
+                continue
+            n += 1
+            ticks += int(rest[11]) + int(rest[12])   # utime + stime
+            for t in os.listdir("/proc/%s/task" % ent):
+                ts = open("/proc/%s/task/%s/stat" % (ent, t)).read()
+                if ts[ts.rindex(")") + 2] not in "SI":   # R running/runnable, D disk wait, Z/T...: not (only) sleeping
+                    all_sleeping = False
+        except (OSError, ValueError, IndexError):
+            continue
+    return n, all_sleeping, ticks
+
+
+def run(cmd, cwd, env=None, timeout=600, strace_root=None, cpu_limit=None, stdin=None, ctx=None, block_window=None):
     """Run a child. timeout is a wall-clock *watchdog* (=> inconclusive, never a verdict).
-    cpu_limit (seconds) is enforced with RLIMIT_CPU and is load-independent."""
+    cpu_limit (seconds) is enforced with RLIMIT_CPU and is load-independent.
+    block_window (seconds, opt-in): the child's process group is sampled once a second; if for that many consecutive samples every thread of every
+    process in it is sleeping and the group has consumed no CPU at all, it is blocked (a starved process is runnable, not sleeping): killed, r.blocked."""
     env = env if env is not None else scratch_env()
     r = Result()
     trace_file = None
@@ -542,6 +570,29 @@ def run(cmd, cwd, env=None, timeout=600, strace_root=None, cpu_limit=None, stdin
     t = time.time()
     p = subprocess.Popen(full, cwd=cwd, env=env, stdout=subprocess.PIPE, stderr=subprocess.PIPE,
                          stdin=subprocess.PIPE if stdin is not None else subprocess.DEVNULL, preexec_fn=pre)
+    if block_window:
+        import threading
+        stop_mon = threading.Event()
+
+        def monitor():
+            still, last = 0, None
+            while not stop_mon.wait(1.0):
+                n, sleeping, ticks = _group_state(p.pid)
+                if n == 0:
+                    return
+                if sleeping and ticks == last:
+                    still += 1
+                    if still >= block_window:
+                        r.blocked = True
+                        try:
+                            os.killpg(p.pid, signal.SIGKILL)
+                        except ProcessLookupError:
+                            pass
+                        return
+                else:
+                    still = 0
+                last = ticks
+        threading.Thread(target=monitor, daemon=True).start()
     try:
         out, err = p.communicate(stdin, timeout=timeout)
     except subprocess.TimeoutExpired:
@@ -551,6 +602,8 @@ def run(cmd, cwd, env=None, timeout=600, strace_root=None, cpu_limit=None, stdin
         except ProcessLookupError:
             pass
         out, err = p.communicate()
+    if block_window:
+        stop_mon.set()
     r.wall = time.time() - t
     r.out = out.decode("utf-8", "replace")
     r.err = err.decode("utf-8", "replace")
@@ -675,13 +728,13 @@ def parse_strace(path, root):
 
 # --------------------------------------------------------------------------- mockery helpers
 
-def run_mockery(ctx, cwd, args=(), env_extra=None, strace=False, timeout=600, cpu_limit=None, root=None):
+def run_mockery(ctx, cwd, args=(), env_extra=None, strace=False, timeout=600, cpu_limit=None, root=None, block_window=None):
     # every run of the tool is bounded in CPU time (a logical, load-independent measure; an ordinary run needs a few seconds): a run that spins is killed
     # by the kernel and shows up as a negative exit status, which no check takes for success. The wall-clock timeout stays a mere watchdog.
     cpu_limit = cpu_limit or min(200, max(40, timeout // 3))   # well below the wall-clock watchdog, so that a spinning run is decided by the logical measure
     env = scratch_env(env_extra)
     return run([ctx.mockery] + list(args), cwd=cwd, env=env, timeout=timeout,
-               strace_root=(root or cwd) if strace else None, cpu_limit=cpu_limit, ctx=ctx)
+               strace_root=(root or cwd) if strace else None, cpu_limit=cpu_limit, ctx=ctx, block_window=block_window)
 
 
 def go_vet(cwd, pkgs=("./...",), tags=None, timeout=900):
